@@ -70,6 +70,9 @@ def vectors(tier, seed):
         vs.append(("RESOLVE", "host", h, 0))
         if len(h) < 80 and not _numeric_form(h):
             vs.append(("RESOLVE_PTR", "host", h, 0))
+    # IPv6 literals with a zone id, for reverse lookups: the zone cannot be sent, so the target is refused (not sent without it)
+    for h in ("fe80::1%eth0", "::1%lo", "ff02::2%3", "fe80::dead:beef%12"):
+        vs.append(("RESOLVE_PTR", "v6zone", h, 0))
     for a in v4:
         for p in (ports if a in V4 else ports[-3:]):
             vs.append(("CONNECT", "v4", a, p))
